@@ -195,6 +195,82 @@ class AtMostH(_Conn):
         return [("truth.at_most", truth(res, env) == ite(s <= st["k"], 1, 0))]
 
 
+class IterArgH(_Conn):
+    """AtLeast / AtMost built from a one-shot ITERATOR (generator, map object) that mixes proposition objects and
+    string ids: the truth function is the same as for a list (every child is kept).  The iterator is modelled by
+    pyvc.shim.OneShot: what one consumer exhausts is gone for the next."""
+    name = "AtLeast.__init__(iterator)"
+    function = "AtLeast.__init__"
+    functions = ["AtLeast.__init__", "AtMost.__init__"]
+    goal = "truth.iterator-argument"
+
+    def cases(self):
+        return [{"cls": "AtLeast", "sign": 1}, {"cls": "AtLeast", "sign": -1}, {"cls": "AtMost", "sign": None}]
+
+    def setup(self, c, case):
+        from pyvc.sym import intern_id
+        from pyvc.shim import OneShot
+        fam, xs = boolean_children(c)
+        env = c.env
+        zid = intern_id("zz").t
+        tvz = z3.Int("tv.zz")
+        c.assume_global(z3.And(tvz >= 0, tvz <= 1, env.f_has(zid), env.f_lo(zid) == tvz, env.f_hi(zid) == tvz,
+                               env.f_form(zid) == 0))
+        c.add_pointwise(fam.base.ivar, fam.fn("id")(fam.base.ivar) != zid)
+        arg = OneShot(Seq([s for s in xs.segs if type(s) is Gen] + ["zz"]))
+        return {"xs": xs, "arg": arg, "k": SInt(z3.Int("k")), "tvz": SInt(tvz)}
+
+    @staticmethod
+    def connective(tvs, w):
+        tot = sum(tvs) + w["tvz"]
+        if w["case"]["cls"] == "AtMost":
+            return int(tot <= w["k"])
+        return int(w["case"]["sign"] * tot >= w["k"])
+
+    def construct(self, pg, w, kids):
+        it = iter(list(kids) + ["zz"])
+        if w["case"]["cls"] == "AtMost":
+            return pg.AtMost(w["k"], it, variable="A")
+        return pg.AtLeast(w["k"], it, variable="A", sign=w["case"]["sign"])
+
+    def run(self, c, st):
+        case = c.state_case
+        pg = c.repo.plog
+        if case["cls"] == "AtMost":
+            return pg.AtMost(st["k"], st["arg"], variable="A")
+        return pg.AtLeast(st["k"], st["arg"], variable="A", sign=case["sign"])
+
+    def ensures(self, c, st, res):
+        env = c.env
+        s = fsum(st["xs"], lambda x: truth(x, env)) + st["tvz"]
+        case = c.state_case
+        spec = ite(s <= st["k"], 1, 0) if case["cls"] == "AtMost" else ite(case["sign"] * s >= st["k"], 1, 0)
+        return [("truth.iterator-argument", truth(res, env) == spec)]
+
+    def concretise(self, case, k, model, c, st):
+        w = _Conn.concretise(self, case, k, model, c, st)
+        w["tvz"] = _mv(model, st["tvz"].t)
+        return w
+
+    def replay(self, w):
+        import puan.logic.plog as pg
+        descr = list(w.get("children", []))
+        for d in descr:
+            if d["kind"] == "atom":
+                d["lo"], d["hi"] = 0, 1
+        kids, env = build_children(descr)
+        env = dict(env)
+        env["zz"] = w["tvz"]
+        tvs = [d["tv"] for d in descr]
+        node = self.construct(pg, w, kids)
+        got = node.evaluate(dict(env))
+        exp = self.connective(tvs, w)
+        ok = got.constant is not None and int(got.constant) == exp
+        return {"violated": [] if ok else [self.goal],
+                "detail": {"model": node.to_text(), "interpretation": env, "evaluate": [int(x) for x in got.as_tuple()],
+                           "documented_connective_value": exp, "children_truth_values": tvs + [w["tvz"]]}}
+
+
 class XorH(_Conn):
     name = "Xor.__init__"
     function = "Xor.__init__"
@@ -288,4 +364,4 @@ class NotH(_Conn):
         return [("truth.negation", truth(res, env) == 1 - truth(st["p"], env))]
 
 
-HARNESSES = [AllH(), AnyH(), AtLeastKH(), AtMostH(), XorH(), XNorH(), ImplyH(), NotH()]
+HARNESSES = [AllH(), AnyH(), AtLeastKH(), AtMostH(), XorH(), XNorH(), ImplyH(), NotH(), IterArgH()]
